@@ -573,12 +573,16 @@ class CreateSolutionOp(clib.Op):
         out.append(((1, 1), ('q', 't'), ('mol', 'L'), 'g', 'g', 'substance'))
         out.append(((1, 3), ('c', 't'), ('g', 'L'), 'g', 'mL', 'substance'))
         if tier == 'thorough':
-            out.append(((1, 2), ('c', 'q'), ('mol', 'L'), 'g', '-', 'substance'))
+            out.append(((1, 2), ('c', 'q'), ('g', 'L'), 'g', '-', 'substance'))
             out.append(((1, 2, 1), ('q', 't'), ('mol', 'L'), 'g', 'mL', 'substance'))
         # a container as solvent
         out.append(((1,), ('c', 't'), ('mol', 'L'), 'g', 'mL', 'container'))
         out.append(((1,), ('c', 't'), ('g', 'g'), 'g', 'g', 'container'))
         out.append(((1,), ('q', 't'), ('mol', 'L'), 'g', 'mL', 'container2'))
+        out.append(((1,), ('c', 't'), ('g', 'g'), 'g', 'g', 'container2e'))
+        out.append(((1,), ('c', 't'), ('mol', 'L'), 'g', 'mL', 'container2e'))
+        # concentration AND quantity for every solute (the quantity rows outside the solve are checked by the residual test)
+        out.append(((1, 1), ('c', 'q'), ('mol', 'L'), 'g', '-', 'substance'))
         return out
 
     def setup(self, I, case, finite=None):
@@ -592,10 +596,10 @@ class CreateSolutionOp(clib.Op):
         for s, k in zip(solutes, kinds):
             I.assume(kind(s) == k)
         I.assume(kind(solvent) == 2)
-        I.assume(kind(other) == 2)
+        I.assume(kind(other) == (3 if form == 'container2e' else 2))      # container2e: an enzyme rides along in the solvent container
         Y = None
         if form.startswith('container'):
-            ykeys = [solvent] + ([other] if form == 'container2' else [])
+            ykeys = [solvent] + ([other] if form in ('container2', 'container2e') else [])
             Y = clib.mk_container(I, 'Y', 'inf', ykeys, [True] * len(ykeys))
             for s in ykeys:
                 I.assume(Y.amt[s] > 0)
@@ -630,7 +634,7 @@ class CreateSolutionOp(clib.Op):
         kinds, given, (nb, db), qunit, tunit, form = case
         solutes, solvent, other, Y, cs, qs, T = st
         n = len(kinds)
-        allkeys = solutes + [solvent] + ([other] if form == 'container2' else [])
+        allkeys = solutes + [solvent] + ([other] if form in ('container2', 'container2e') else [])
         fin = {'keys': allkeys}
         ms = spec.num(clib.ms_of(I))
         frame_ob(I)
